@@ -230,6 +230,9 @@ JudgeSwap(s, e, p) ==
        C03_invariant_non_decreasing |-> GK(good, InvariantOK(pl, res1), F7(pl, res1, a)),
        C12_quote_available     |-> G(good, q.ok),
        C12_quote_equals_execution |-> G(good /\ q.ok, q.ret = r.ret /\ q.swap = r.swap /\ q.protocol = r.protocol /\ q.burn = r.burn /\ q.extra = r.extra),
+       \* what arrives is what was quoted (the receiver is neither the pool manager nor the fee collector of the moment)
+       C12_received_equals_quote |-> G(good /\ q.ok /\ Recv(e) \notin {"pm", s.pmcfg.fc} /\ Recv(e) \in DOMAIN s.bal,
+                                       BSub(p.bal[Recv(e)][e.ask], s.bal[Recv(e)][e.ask]) = q.ret),
        C13_swap_within_tolerance |-> G(good /\ ~e.belief.set /\ dx # Z, SwapAllowedNoBelief(pl, o, a, dx, r.ret, tol)),
        C13_swap_rejected_only_beyond_tolerance |-> G(~e.ok /\ e.err = "slippage" /\ wellformed /\ ~e.belief.set /\ q.ok /\ dx # Z,
                                                      SwapRejectedRightlyNoBelief(pl, o, a, dx, q.ret, tol)),
